@@ -172,6 +172,14 @@ func genC03(r *rand.Rand, run int, tier string) *vm.Plan {
 	for i := range seq {
 		tx = h.attenuate(tx, seq[i])
 	}
+	// the holder looks facts of the extra blocks up in the finished token (GetBlockID): looking
+	// does not move anything between scopes
+	for i := range seq {
+		if isExtra[i] && len(seq[i].Facts) > 0 && r.Intn(3) == 0 {
+			f := seq[i].Facts[r.Intn(len(seq[i].Facts))]
+			h.add(vm.Op{K: "blockid", A: tx, F: &f})
+		}
+	}
 	var qs []ref.Rule
 	for i := 1 + r.Intn(3); i > 0; i-- {
 		if r.Intn(2) == 0 {
